@@ -66,6 +66,19 @@ Fixpoint set_prox_c (id : Z) (p : pt) (c : cell) : cell :=
 Definition set_prox (id : Z) (p : pt) (st : mstate) : mstate :=
   mkst (set_prox_c id p (st_segs st)) (st_groups st).
 
+(* __unused_branch_group_id (C16 fix): the index is increased until no group carries the ID.  The while loop ends
+   after at most len(groups) increments (Proofs/SectionP5.v fresh_name_not_taken), which is the fuel given here. *)
+Definition name_taken (gs : list group) (nm : string) : bool := existsb (has_gid nm) gs.
+
+Fixpoint fresh_index (fuel : nat) (gs : list group) (n id : Z) : Z :=
+  match fuel with
+  | O => n
+  | S k => if name_taken gs (mkname n id) then fresh_index k gs (n + 1) id else n
+  end.
+
+Definition fresh_name (gs : list group) (n id : Z) : string :=
+  mkname (fresh_index (List.length gs) gs n id) id.
+
 (* one child of a branch point: proximal made explicit, new group, recursion (the recursive call is
    passed in so that the fixpoint below is structurally recursive on the fuel) *)
 Definition sect_child (rec : Z -> string -> mstate -> res mstate) (acc : res mstate) (child : Z) : res mstate :=
@@ -73,7 +86,7 @@ Definition sect_child (rec : Z -> string -> mstate -> res mstate) (acc : res mst
   s <- get_segment (st_segs st1) child ;;
   p <- actual_prox (fuel_of (st_segs st1)) (st_segs st1) (sid s) ;;
   let st2 := set_prox (sid s) p st1 in
-  let name := mkname (Z.of_nat (List.length (st_groups st2)) - 1) (sid s) in
+  let name := fresh_name (st_groups st2) (Z.of_nat (List.length (st_groups st2)) - 1) (sid s) in
   rec child name (add_unbranched_group name st2).
 
 Fixpoint sect (fuel : nat) (a : adj) (r : Z) (gname : string) (st : mstate) : res mstate :=
@@ -122,7 +135,7 @@ Definition create_branches (c : cell) (gs : list group) (root : Z) (reorder opti
   let a := adjacency c in
   s <- get_segment c root ;;
   st0 <- root_prox (mkst c gs) s ;;
-  let name := mkname (Z.of_nat (List.length gs)) (sid s) in
+  let name := fresh_name (st_groups st0) (Z.of_nat (List.length gs)) (sid s) in
   st1 <- sect (fuel_of c) a root name (add_unbranched_group name st0) ;;
   let g1 := if reorder then reorder_groups (st_groups st1) else st_groups st1 in
   let g2 := if optimise then map optimise_simple g1 else g1 in
@@ -285,34 +298,54 @@ Fixpoint nodup_strb (l : list string) : bool :=
   | x :: r => negb (existsb (String.eqb x) r) && nodup_strb r
   end.
 
+Definition tree_hyps_ok (c : cell) (t : tree) : bool :=
+  wfb c && root_has_proxb c
+  && tree_adjb (adjacency c) t && Zlist_eqb (dedup (preorder t)) (preorder t)
+  && forallb (fun x => memZ x (ids c)) (preorder t).
+
+Definition names_ok (gs : list group) (t : tree) : bool :=
+  nodup_strb (map gid gs ++ map gid (name_groups (Z.of_nat (List.length gs)) O (sect_tree t []))).
+
 Definition hyps_ok (c : cell) (gs : list group) (root : Z) : bool :=
   match build_tree (fuel_of c) (adjacency c) root with
-  | Some t =>
-      wfb c && root_has_proxb c
-      && tree_adjb (adjacency c) t && Zlist_eqb (dedup (preorder t)) (preorder t)
-      && forallb (fun x => memZ x (ids c)) (preorder t)
-      && nodup_strb (map gid gs ++ map gid (name_groups (Z.of_nat (List.length gs)) O (sect_tree t [])))
+  | Some t => tree_hyps_ok c t && names_ok gs t
+  | None => false
+  end.
+
+(* the part of the hypotheses that does not concern group ids (a cell whose old groups carry generated-style ids is
+   still a legitimate input: C16_alters_nothing / C16_old_groups_untouched apply to it) *)
+Definition tree_ok (c : cell) (root : Z) : bool :=
+  match build_tree (fuel_of c) (adjacency c) root with
+  | Some t => tree_hyps_ok c t
+  | None => false
+  end.
+
+Definition ids_clash (c : cell) (gs : list group) (root : Z) : bool :=
+  match build_tree (fuel_of c) (adjacency c) root with
+  | Some t => negb (names_ok gs t)
   | None => false
   end.
 
 Definition is_section (g : group) : bool := optstr_eqb (gnlx g) (Some section_nlx).
 
 (* 1 = model vs implementation: segments; 2 = groups; 3 = list-level model vs rose-tree function;
-   4 = the case lies outside the hypotheses of C16_model_correct *)
+   4 = the cell or the tree below the root lies outside the hypotheses of C16_model_correct (component 3 is
+   evaluated only when, in addition, no old group id clashes with a generated name) *)
 Definition case_diff (k : case16) : list nat :=
   let m := create_branches (k_cell k) (k_groups k) (k_root k) (k_reorder k) (k_optimise k) in
   match m, k_out k with
   | Ok st, Ok (segs, gs) =>
       (flag 1 (list_eqb seg_eqb (st_segs st) segs)
        ++ flag 2 (list_eqb (group_eqb (k_optimise k)) (st_groups st) gs)
-       ++ flag 3 (match tree_groups (k_cell k) (k_groups k) (k_root k) with
+       ++ flag 3 (ids_clash (k_cell k) (k_groups k) (k_root k) ||
+                  match tree_groups (k_cell k) (k_groups k) (k_root k) with
                   | Some tg => list_eqb (group_eqb false)
                                  (skipn (List.length (k_groups k))
                                     (st_groups (match create_branches (k_cell k) (k_groups k) (k_root k) false false with
                                                 | Ok s => s | Err _ => st end))) tg
                   | None => false
                   end)
-       ++ flag 4 (hyps_ok (k_cell k) (k_groups k) (k_root k)))%list
+       ++ flag 4 (tree_ok (k_cell k) (k_root k)))%list
   | Err e, Err f => flag 1 (err_eqb e f)
   | _, _ => [1%nat; 2%nat]
   end.
